@@ -118,16 +118,25 @@ def kernel(I, ctx, name, prop, blk):
         raise Infeasible()
 
 
+def _nm(a):
+    """printable name / identity of a universe member (abstract atom or concrete address)"""
+    return a if isinstance(a, str) else a.name
+
+
+def _id(a):
+    return a if isinstance(a, str) else a.idx
+
+
 class GroupEnv:
     """environment contract of the cw4 group behind a flex multisig (DESIGN §3.6): `now` is the group's current state (raw
     queries read it), hist(a, h) the weight at the start of block h (smart Member{at_height} reads it).  Members outside
     the universe G have no weight (closed world)."""
 
-    def __init__(self, I, ctx, group_addr, G):
-        self.group_addr, self.G = group_addr, G
+    def __init__(self, I, ctx, group_addr, G, all_present=False):
+        self.group_addr, self.G, self.all_present = group_addr, G, all_present
         self.now = {}
         for a in G:
-            self.now[a] = (ctx.fresh_bool(f"group.now[{a.name}].member"), ctx.fresh_int(f"group.now[{a.name}].weight", 0, U64))
+            self.now[a] = (True if all_present else ctx.fresh_bool(f"group.now[{_nm(a)}].member"), ctx.fresh_int(f"group.now[{_nm(a)}].weight", 0, U64))
         self.total_now = ctx.fresh_int("group.now.total", 0, U64)
         ctx.assume(self.total_now == zsum([zite(p, w, 0) for p, w in self.now.values()]))
         self.hist = {}
@@ -135,9 +144,9 @@ class GroupEnv:
         self.smart = []           # (addr value, height term | None, present, weight) of every smart Member query on the path
 
     def at(self, ctx, a, h):
-        key = (a.idx, str(h))
+        key = (_id(a), str(h))
         if key not in self.hist:
-            self.hist[key] = (ctx.fresh_bool(f"group.at[{a.name},{h}].member"), ctx.fresh_int(f"group.at[{a.name},{h}].weight", 0, U64))
+            self.hist[key] = (True if self.all_present else ctx.fresh_bool(f"group.at[{_nm(a)},{h}].member"), ctx.fresh_int(f"group.at[{_nm(a)},{h}].weight", 0, U64))
         return self.hist[key]
 
     def _member_of(self, ctx, addr):
@@ -157,7 +166,7 @@ class GroupEnv:
             a = self._member_of(ctx, key[0])
             if a is None: return Ok(NONE)
             p, w = self.now[a]
-            return Ok(Some(w)) if ctx.branch(p, f"group.now[{a.name}]?") else Ok(NONE)
+            return Ok(Some(w)) if ctx.branch(p, f"group.now[{_nm(a)}]?") else Ok(NONE)
         raise Unsupported(f"raw query of namespace {ns}")
 
     def query(self, I, ctx, meth, args, generics, crate):
@@ -193,16 +202,55 @@ class GroupEnv:
         for addr, h, p, w in self.smart:
             msg = {"member": {"addr": conc.string(addr), "at_height": None if h is None else conc.ev(h)}}
             smart.append({"contract": g, "msg": msg, "response": {"weight": conc.ev(w) if conc.ev(p) else None}})
+        for start, L, page in getattr(self, "listed", []):
+            msg = {"list_members": {"start_after": None if start.variant == "None" else conc.string(start.fields[0]), "limit": None if L == self.GROUP_DEFAULT_LIMIT else L}}
+            smart.append({"contract": g, "msg": msg, "response": {"members": [{"addr": conc.string(x.get("addr")), "weight": conc.ev(x.get("weight"))} for x in page]}})
         return {"raw": raw, "smart": smart}
 
+    GROUP_DEFAULT_LIMIT, GROUP_MAX_LIMIT = 10, 30        # cw4-group / cw4-stake page sizes (environment contract)
+
     def list_members(self, I, ctx, m):
-        raise Unsupported("ListMembers environment model is provided by the listing spec")
+        """the group's ListMembers page: current members in address order after the cursor, at most min(limit or 10, 30)"""
+        start = I.force(ctx, m.get("start_after"))
+        lim = I.force(ctx, m.get("limit"))
+        L = lim.fields[0] if lim.variant == "Some" else self.GROUP_DEFAULT_LIMIT
+        if not isinstance(L, int):
+            L = ctx.concretize_int(L, 0, self.GROUP_MAX_LIMIT + 1, "group page limit")
+        L = min(L, self.GROUP_MAX_LIMIT)
+        members = list(self.G)
+        if not all(isinstance(a, str) for a in members):
+            # abstract addresses: fix their order by forking on the comparisons
+            out = []
+            for a in members:
+                k = len(out)
+                while k > 0 and ctx.str_lt(a, out[k - 1]): k -= 1
+                out.insert(k, a)
+            members = out
+        else:
+            members = sorted(members)
+        page = []
+        for a in members:
+            if len(page) >= L: break
+            if start.variant == "Some":
+                c = start.fields[0]
+                if ctx.str_eq(c, a) or not ctx.str_lt(c, a): continue
+            p, w = self.now[a]
+            if ctx.branch(p, "listed member present?"):
+                page.append(Struct("Member", [a, w], ["addr", "weight"]))
+        self.queries.append(("smart", "ListMembers"))
+        self.listed = getattr(self, "listed", []) + [(start, L, page)]
+        return Ok(Struct("MemberListResponse", [VecV(page)], ["members"]))
 
 
-def ms_state(I, ctx, crate, nv=NV, ordered=False):
+def ms_state(I, ctx, crate, nv=NV, ordered=False, large=False):
     """arbitrary multisig state: config, counter, one focus proposal (id symbolic) plus one bystander proposal, ballots of the
-    focus proposal over a universe of nv addresses, the voter list (fixed) or the group environment (flex)"""
-    V = universe(ctx, nv, "v", ordered=ordered)
+    focus proposal over a universe of nv addresses, the voter list (fixed) or the group environment (flex).
+    large=True: nv concrete (valid, sorted) addresses instead of abstract ones — a group bigger than a ListMembers page"""
+    if large:
+        from mirsym import replay as _rp
+        V = sorted(_rp.addr_pool(nv, prefix="voter"))
+    else:
+        V = universe(ctx, nv, "v", ordered=ordered)
     cfg = sym_item(I, ctx, "config", "state::Config", crate, present=True).value
     sym_item(I, ctx, "proposal_count", "u64", crate)
     cw2_item(I, ctx, crate)
@@ -219,7 +267,7 @@ def ms_state(I, ctx, crate, nv=NV, ordered=False):
     ctx.storage["proposals"] = props
     bal = MapStore("votes", [], ["u64", None], "cw3::Ballot")
     for a in V:
-        bal.slots.append([(pid, a), ctx.fresh_bool(f"ballot[{a.name}].present"), symval.fresh(I, ctx, "cw3::Ballot", f"ballot[{a.name}]", None, crate)])
+        bal.slots.append([(pid, a), ctx.fresh_bool(f"ballot[{_nm(a)}].present"), symval.fresh(I, ctx, "cw3::Ballot", f"ballot[{_nm(a)}]", None, crate)])
     ctx.storage["votes"] = bal
     if crate == FIXED:
         sym_map(I, ctx, "voters", [(a,) for a in V], "u64", crate)
@@ -267,7 +315,7 @@ class MsFacts:
     pass
 
 
-def ms_step(I, ctx, ob, crate, variant, statuses=("Open", "Rejected", "Passed", "Executed"), after=None):
+def ms_step(I, ctx, ob, crate, variant, statuses=("Open", "Rejected", "Passed", "Executed"), after=None, large=0):
     """arbitrary multisig state satisfying the invariants -> one execute call; returns the facts the property specs talk about.
     With `after`, a first call of that variant on the focus proposal is made from the arbitrary state and `variant` is then
     called (any sender, any later block, fresh group state) on the state the first call really produced: a two-call chain whose
@@ -281,10 +329,10 @@ def ms_step(I, ctx, ob, crate, variant, statuses=("Open", "Rejected", "Passed", 
     f = MsFacts()
     f.crate, f.variant = crate, variant
     install_kernel_abstraction(I, ctx)
-    f.V, f.cfg, f.pid, f.focus = V, cfg, pid, focus = ms_state(I, ctx, crate)
+    f.V, f.cfg, f.pid, f.focus = V, cfg, pid, focus = ms_state(I, ctx, crate, nv=large, large=True) if large else ms_state(I, ctx, crate)
     oid = ctx.storage["proposals"].slots[1][0][0]
     st = ctx.storage
-    f.env, f.info = mk_env(I, ctx), mk_info(I, ctx)
+    f.env, f.info = mk_env(I, ctx), (mk_info(I, ctx, sender=V[-1]) if large else mk_info(I, ctx))      # large: the last member calls
     blk = f.env.get("block")
     f.sender = sender = f.info.get("sender")
     f.si = resolve(ctx, sender, V)
@@ -305,7 +353,8 @@ def ms_step(I, ctx, ob, crate, variant, statuses=("Open", "Rejected", "Passed", 
             ctx.assume(z3.Implies(p, z3.And(vp, b.get("weight") == vw)))
     else:
         ga = cfg.get("group_addr")
-        f.genv = ctx.env = GroupEnv(I, ctx, ga.fields[0] if isinstance(ga, Struct) else ga, V)
+        # large: every listed address is a member now and was one at every earlier height (only the weights vary)
+        f.genv = ctx.env = GroupEnv(I, ctx, ga.fields[0] if isinstance(ga, Struct) else ga, V, all_present=bool(large))
         # C06's (flex) invariant is assumed here: total and ballots are the group snapshot at the proposal's start height
         snap = [f.genv.at(ctx, a, focus.get("start_height")) for a in V]
         ctx.assume(focus.get("total_weight") == zsum([zite(p, w, 0) for p, w in snap]))
